@@ -51,8 +51,10 @@ func genReadCase(t *rapid.T) ReadCase {
 // number of data bytes the application had received when they ran.
 type handlerLog struct {
 	Events []hEvent
-	// progress is updated by the read executor through the countingReader
-	msgIdx  *int
+	// prog, if set, is the application's read progress (see ReadProgress)
+	prog *ReadProgress
+	// custom: do not call through to the default handlers
+	custom  bool
 	failAt  int // handler error injected at this event index (-1 none)
 	failErr error
 	def     bool // call through to default handlers
@@ -62,28 +64,44 @@ type hEvent struct {
 	Op      byte
 	Payload string
 	Code    int // close code for close events
+	Req     int // ReadProgress at the time of the call (-2 if not tracked)
+	Bytes   int
+}
+
+func (h *handlerLog) add(e hEvent) {
+	e.Req, e.Bytes = -2, 0
+	if h.prog != nil {
+		e.Req, e.Bytes = h.prog.Req, h.prog.Bytes
+	}
+	h.Events = append(h.Events, e)
 }
 
 func (h *handlerLog) install(c *websocket.Conn) {
 	defPing, defClose := c.PingHandler(), c.CloseHandler()
 	c.SetPingHandler(func(s string) error {
-		h.Events = append(h.Events, hEvent{Op: wsref.OpPing, Payload: s})
+		h.add(hEvent{Op: wsref.OpPing, Payload: s})
 		if h.failAt == len(h.Events)-1 {
 			return h.failErr
+		}
+		if h.custom {
+			return nil
 		}
 		return defPing(s)
 	})
 	c.SetPongHandler(func(s string) error {
-		h.Events = append(h.Events, hEvent{Op: wsref.OpPong, Payload: s})
+		h.add(hEvent{Op: wsref.OpPong, Payload: s})
 		if h.failAt == len(h.Events)-1 {
 			return h.failErr
 		}
 		return nil
 	})
 	c.SetCloseHandler(func(code int, text string) error {
-		h.Events = append(h.Events, hEvent{Op: wsref.OpClose, Payload: text, Code: code})
+		h.add(hEvent{Op: wsref.OpClose, Payload: text, Code: code})
 		if h.failAt == len(h.Events)-1 {
 			return h.failErr
+		}
+		if h.custom {
+			return nil
 		}
 		return defClose(code, text)
 	})
